@@ -61,6 +61,7 @@ class ClassInfo:
                 self.class_attrs[st.targets[0].id] = st.value
         self._field_types = None
         self._members = None
+        self._members_evaluated = False
 
     def method(self, name, kind=None):
         """kind: None (plain / getter), 'setter'."""
@@ -147,6 +148,22 @@ class Index:
                 self.enums[c.name] = tab
         for n in amb:
             del self.enums[n]
+        # nested enums are also known by their qualified name (Element.Access vs FieldPort.Access), and their
+        # single-return methods (readable(), writable()) can be evaluated on a member
+        methods = {}
+        for c in self.all_classes():
+            if c.is_enum():
+                keys = [c.qual] if "." in c.qual else []
+                if c.name in self.enums and self.enums[c.name] == c.enum_table():
+                    keys.append(c.name)
+                for k in keys:
+                    self.enums[k] = c.enum_table()
+                    for mname, fs in c.methods.items():
+                        body = [s for s in fs[0].node.body if not (isinstance(s, ast.Expr) and isinstance(s.value, ast.Constant))]
+                        if len(body) == 1 and isinstance(body[0], ast.Return) and body[0].value is not None and \
+                                [a.arg for a in fs[0].node.args.args] == ["self"]:
+                            methods[(k, mname)] = body[0].value
+        self.enums["@methods"] = methods
         # private attributes are identified by role and renamed to the names the rules use (see core/canon.py)
         from . import canon
         self.renamed = canon.apply(self, canon.discover(self))
@@ -404,7 +421,12 @@ class Index:
                         fl = flow_of(st.value)
                         if fl:
                             out.setdefault(key, []).append((fl[0], fl[1], conds, st.lineno, fl[2]))
-        if init is not None:
+        ev = self._eval_members(init, flow_of, literals) if init is not None else None
+        if ev is not None:
+            for key, fl, conds, ln in ev:
+                out.setdefault(key, []).append((fl[0], fl[1], conds, ln, fl[2]))
+            cls._members_evaluated = True
+        elif init is not None:
             visit(init.node.body, ())
         # inherited members (FieldAction adds "port")
         for b in self.bases_of(cls):
@@ -413,6 +435,187 @@ class Index:
         cls._members = out
         return out
 
+
+def _eval_members(self, init, flow_of, literals):
+    """Evaluate the member dictionary handed to super().__init__() symbolically: dict literals, **-splices, update(),
+    |=, constant-key stores, `if` statements (presence conditions), conditional expressions, loops over literal tables,
+    and look-ups in a literal table of dictionaries (presence condition `key == K`).  Returns a list of
+    (name, flow, conds, lineno), or None when the constructor builds the dictionary in a way this does not follow."""
+    import copy
+    env = {}            # local name -> list of entries (name, flow, conds, lineno)
+    tables = {}         # local name -> ast.Dict whose values are dictionaries
+    result = []
+    state = {"ok": True, "seen_super": False}
+
+    class _Sub(ast.NodeTransformer):
+        def __init__(self, m):
+            self.m = m
+
+        def visit_Name(self, node):
+            return self.m.get(node.id, node) if isinstance(node.ctx, ast.Load) else node
+
+    def dict_of(node, conds):
+        """entries denoted by a dictionary-valued expression, or None"""
+        if isinstance(node, ast.Dict):
+            out = []
+            for k, v in zip(node.keys, node.values):
+                if k is None:
+                    sub = dict_of(v, conds)
+                    if sub is None:
+                        return None
+                    out.extend(sub)
+                elif isinstance(k, ast.Constant) and isinstance(k.value, str):
+                    fl = flow_of(v)
+                    if fl is None:
+                        return None
+                    out.append((k.value, fl, conds, k.lineno))
+                else:
+                    return None
+            return out
+        if isinstance(node, ast.Name) and node.id in env:
+            return [(n, fl, c + conds, ln) for n, fl, c, ln in env[node.id]]
+        if isinstance(node, ast.Call) and isinstance(node.func, ast.Name) and node.func.id == "dict" and not node.keywords:
+            if not node.args:
+                return []
+            return dict_of(node.args[0], conds) if len(node.args) == 1 else None
+        if isinstance(node, ast.IfExp):
+            c = ir.from_ast(node.test, {})
+            a, b = dict_of(node.body, conds + ((c, True),)), dict_of(node.orelse, conds + ((c, False),))
+            return None if a is None or b is None else a + b
+        if isinstance(node, ast.BinOp) and isinstance(node.op, ast.BitOr):
+            a, b = dict_of(node.left, conds), dict_of(node.right, conds)
+            return None if a is None or b is None else a + b
+        if isinstance(node, ast.Subscript):
+            tab = node.value if isinstance(node.value, ast.Dict) else tables.get(node.value.id) if isinstance(node.value, ast.Name) else None
+            if tab is None or any(k is None for k in tab.keys):
+                return None
+            key = ir.from_ast(node.slice, {})
+            out = []
+            for k, v in zip(tab.keys, tab.values):
+                sub = dict_of(v, conds + ((('cmp', '==', key, ir.from_ast(k, {})), True),))
+                if sub is None:
+                    return None
+                out.extend(sub)
+            return out
+        return None
+
+    def mentions_tracked(node):
+        return any(isinstance(n, ast.Name) and (n.id in env or n.id in tables) for n in ast.walk(node))
+
+    def run(stmts, conds):
+        for st in stmts:
+            if not state["ok"]:
+                return
+            if isinstance(st, ast.If):
+                c = ir.from_ast(st.test, {})
+                run(st.body, conds + ((c, True),))
+                run(st.orelse, conds + ((c, False),))
+                continue
+            if isinstance(st, ast.For):
+                lit = st.iter if isinstance(st.iter, (ast.Tuple, ast.List)) else literals.get(st.iter.id) if isinstance(st.iter, ast.Name) else None
+                if lit is not None and isinstance(st.target, ast.Tuple) and all(isinstance(t, ast.Name) for t in st.target.elts) and \
+                        all(isinstance(e, (ast.Tuple, ast.List)) and len(e.elts) == len(st.target.elts) for e in lit.elts):
+                    for e in lit.elts:
+                        m = {t.id: v for t, v in zip(st.target.elts, e.elts)}
+                        run([ast.fix_missing_locations(_Sub(m).visit(copy.deepcopy(b))) for b in st.body], conds)
+                    continue
+                if mentions_tracked(st) or any(isinstance(n, ast.Dict) for n in ast.walk(st)):
+                    state["ok"] = False
+                continue
+            if isinstance(st, ast.Assign) and len(st.targets) == 1 and isinstance(st.targets[0], ast.Name):
+                name = st.targets[0].id
+                v = st.value
+                if isinstance(v, ast.Dict) and v.values and all(isinstance(x, (ast.Dict, ast.Name)) and (isinstance(x, ast.Dict) or x.id in env)
+                                                              for x in v.values) and all(k is not None for k in v.keys) and \
+                        not all(isinstance(k, ast.Constant) and isinstance(k.value, str) and flow_of(x) for k, x in zip(v.keys, v.values)):
+                    tables[name] = v
+                    continue
+                ents = dict_of(v, ())
+                if ents is not None:
+                    if conds and name in env:
+                        state["ok"] = False         # conditional rebinding of a member dictionary: not followed
+                        return
+                    env[name] = [(n, fl, c + conds, ln) for n, fl, c, ln in ents]
+                    continue
+                if name in env or name in tables:
+                    state["ok"] = False
+                    return
+                continue
+            if isinstance(st, ast.Assign) and len(st.targets) == 1 and isinstance(st.targets[0], ast.Subscript) and \
+                    isinstance(st.targets[0].value, ast.Name) and st.targets[0].value.id in env:
+                t = st.targets[0]
+                key = None
+                if isinstance(t.slice, ast.Constant) and isinstance(t.slice.value, str):
+                    key = t.slice.value
+                elif isinstance(t.slice, ast.Attribute) and t.slice.attr == "value" and isinstance(t.slice.value, ast.Attribute):
+                    en = self.enums.get(t.slice.value.value.attr if isinstance(t.slice.value.value, ast.Attribute) else
+                                        getattr(t.slice.value.value, "id", None))
+                    if en is not None and isinstance(en.get(t.slice.value.attr), str):
+                        key = en[t.slice.value.attr]
+                fl = flow_of(st.value)
+                if key is None or fl is None:
+                    state["ok"] = False
+                    return
+                env[t.value.id].append((key, fl, conds, st.lineno))
+                continue
+            if isinstance(st, ast.AugAssign) and isinstance(st.target, ast.Name) and st.target.id in env and isinstance(st.op, ast.BitOr):
+                ents = dict_of(st.value, conds)
+                if ents is None:
+                    state["ok"] = False
+                    return
+                env[st.target.id].extend(ents)
+                continue
+            if isinstance(st, ast.Expr) and isinstance(st.value, ast.Call):
+                call = st.value
+                f = call.func
+                if isinstance(f, ast.Attribute) and f.attr == "update" and isinstance(f.value, ast.Name) and f.value.id in env and \
+                        len(call.args) == 1 and not call.keywords:
+                    ents = dict_of(call.args[0], conds)
+                    if ents is None:
+                        state["ok"] = False
+                        return
+                    env[f.value.id].extend(ents)
+                    continue
+                if isinstance(f, ast.Attribute) and f.attr == "__init__" and isinstance(f.value, ast.Call) and \
+                        isinstance(f.value.func, ast.Name) and f.value.func.id == "super":
+                    cands = [k.value for k in call.keywords if k.arg == "members"] or list(call.args)
+                    ents = None
+                    for arg in cands:
+                        ents = dict_of(arg, conds)
+                        if ents is not None:
+                            break
+                        if isinstance(arg, ast.Tuple) and all(isinstance(e, ast.Tuple) and len(e.elts) == 2 and
+                                                              isinstance(e.elts[0], ast.Constant) for e in arg.elts):
+                            # members given as a tuple of (name, In/Out) pairs
+                            ents = []
+                            for e in arg.elts:
+                                fl = flow_of(e.elts[1])
+                                if fl is None:
+                                    ents = None
+                                    break
+                                ents.append((e.elts[0].value, fl, conds, e.lineno))
+                            if ents is not None:
+                                break
+                    if ents is None:
+                        if any(mentions_tracked(a) for a in cands):
+                            state["ok"] = False
+                            return
+                        continue
+                    result.extend(ents)
+                    state["seen_super"] = True
+                    continue
+            if mentions_tracked(st) and not isinstance(st, (ast.Return, ast.Pass)):
+                # a tracked dictionary escapes into something that is not modelled
+                if any(isinstance(n, ast.Call) for n in ast.walk(st)):
+                    state["ok"] = False
+                    return
+    run(init.node.body, ())
+    if not state["ok"] or not state["seen_super"]:
+        return None
+    return result
+
+
+Index._eval_members = _eval_members
 
 _CACHE = {}
 
